@@ -1403,6 +1403,10 @@ class RTCPeerConnection(AsyncIOEventEmitter):
                     "DTLS setup attribute must be 'active' or 'passive' for an answer"
                 )
 
+            # check the remote party provided DTLS parameters
+            if not is_local and media.dtls is None:
+                raise ValueError("DTLS setup attribute is missing")
+
             # check RTCP mux is used
             if media.kind in ["audio", "video"] and not media.rtcp_mux:
                 raise ValueError("RTCP mux is not enabled")
